@@ -327,6 +327,12 @@ fn scan_comments3(src: &str) -> (Vec<String>, bool, Vec<usize>, bool) {
 }
 /// as scan_comments3, plus: a comment lies inside a `[ ]` that holds nothing but commas and comments
 fn scan_comments4(src: &str) -> (Vec<String>, bool, Vec<usize>, bool, bool, bool) {
+    let r = scan_comments5(src);
+    (r.0, r.1, r.2, r.3, r.4, r.5)
+}
+/// as scan_comments4, plus: a backslash occurs in the code of an interpolation hole (a resource type `\\Name`)
+fn scan_comments5(src: &str) -> (Vec<String>, bool, Vec<usize>, bool, bool, bool, bool) {
+    let mut hole_backslash = false;
     let mut brackets: Vec<(bool, bool, bool)> = vec![]; // (has code, has comment, is a `! [` source list) per open `[`
     let mut in_empty_brackets = false;
     let mut in_select_sources = false;
@@ -367,6 +373,9 @@ fn scan_comments4(src: &str) -> (Vec<String>, bool, Vec<usize>, bool, bool, bool
                     }
                     i = j;
                     continue;
+                }
+                if c == '\\' && !top_level(&stack) {
+                    hole_backslash = true;
                 }
                 if c == '[' {
                     if let Some(top) = brackets.last_mut() {
@@ -463,7 +472,7 @@ fn scan_comments4(src: &str) -> (Vec<String>, bool, Vec<usize>, bool, bool, bool
             }
         }
     }
-    (out, in_hole, offsets, in_match_term, in_empty_brackets, in_select_sources)
+    (out, in_hole, offsets, in_match_term, in_empty_brackets, in_select_sources, hole_backslash)
 }
 
 
@@ -1033,7 +1042,7 @@ fn e2e(src: &str, with_out: bool) -> String {
             }
         }
     }
-    let (c_in, comment_in_hole, c_offsets, c_in_match, c_in_empty, c_in_select) = scan_comments4(src);
+    let (c_in, comment_in_hole, c_offsets, c_in_match, c_in_empty, c_in_select, hole_backslash) = scan_comments5(src);
     let binds = bind_spans(&ast_for_sig);
     let comment_in_pattern = c_in_match || c_offsets.iter().any(|o| binds.iter().any(|(a, b)| a <= o && o < b));
     let mut sigs = vec![];
@@ -1093,6 +1102,9 @@ fn e2e(src: &str, with_out: bool) -> String {
     }
     if c_in_select {
         sigs.push("comment-in-select-sources");
+    }
+    if hole_backslash {
+        sigs.push("hole-backslash");
     }
     {
         // a comment followed, up to the closing bracket, only by commas and further comments
